@@ -2,6 +2,7 @@ package symgo
 
 import (
 	"fmt"
+	"strings"
 	"go/constant"
 	"go/token"
 	"go/types"
@@ -170,8 +171,55 @@ func (in *Interp) globalObj(g *ssa.Global) int {
 	}
 	id := in.newObj(v, et)
 	in.globals[g] = id
-	in.initGlobal(g, id)
+	if g.Pkg != nil && !in.initDone[g.Pkg] && in.shouldInit(g.Pkg) {
+		in.initDone[g.Pkg] = true
+		in.runPkgInit(g.Pkg)
+	}
 	return id
+}
+
+func (in *Interp) shouldInit(p *ssa.Package) bool {
+	path := p.Pkg.Path()
+	for _, n := range in.Cfg.NoInit {
+		if n == path {
+			return false
+		}
+	}
+	for e := range in.execOK {
+		if path == e || strings.HasPrefix(path, e+"/") {
+			return true
+		}
+	}
+	return false
+}
+
+// runPkgInit executes the package's own initialisers (dependency inits are skipped, unknown
+// calls yield zero values). A failure inside init leaves the remaining globals zero.
+func (in *Interp) runPkgInit(p *ssa.Package) {
+	p.Build()
+	initFn := p.Func("init")
+	if initFn == nil || initFn.Blocks == nil {
+		return
+	}
+	in.lenient++
+	savedFrames := in.frames
+	savedDepth := in.depth
+	defer func() {
+		in.lenient--
+		if r := recover(); r != nil {
+			in.frames = savedFrames
+			in.depth = savedDepth
+			switch e := r.(type) {
+			case *pathEnd:
+				in.Rep.InitNotes = appendUniq(in.Rep.InitNotes, p.Pkg.Path()+": init stopped: "+e.reason+" "+e.msg)
+			case *goPanic:
+				in.Rep.InitNotes = appendUniq(in.Rep.InitNotes, p.Pkg.Path()+": init panicked: "+e.kind)
+			default:
+				panic(r)
+			}
+		}
+	}()
+	in.call(initFn, nil, nil, "init")
 }
 
 var errIfaceCache *types.Interface
@@ -197,6 +245,7 @@ var opaqueErrType = types.NewNamed(types.NewTypeName(token.NoPos, nil, "verifOpa
 
 func (in *Interp) runBlocks(fr *frame, b *ssa.BasicBlock) Value {
 	var prev *ssa.BasicBlock
+	phisDone := false
 	for {
 		// phis first (parallel assignment)
 		nphi := 0
@@ -207,6 +256,9 @@ func (in *Interp) runBlocks(fr *frame, b *ssa.BasicBlock) Value {
 				break
 			}
 			nphi++
+			if phisDone {
+				continue
+			}
 			idx := -1
 			for i, p := range b.Preds {
 				if p == prev {
@@ -219,9 +271,12 @@ func (in *Interp) runBlocks(fr *frame, b *ssa.BasicBlock) Value {
 			}
 			phiVals = append(phiVals, in.get(fr, phi.Edges[idx]))
 		}
-		for i := 0; i < nphi; i++ {
-			fr.env[b.Instrs[i].(*ssa.Phi)] = phiVals[i]
+		if !phisDone {
+			for i := 0; i < nphi; i++ {
+				fr.env[b.Instrs[i].(*ssa.Phi)] = phiVals[i]
+			}
 		}
+		phisDone = false
 		var next *ssa.BasicBlock
 		for _, instr := range b.Instrs[nphi:] {
 			in.steps++
@@ -232,6 +287,11 @@ func (in *Interp) runBlocks(fr *frame, b *ssa.BasicBlock) Value {
 			case *ssa.If:
 				cond := in.get(fr, i.Cond).(BV).T
 				if !cond.IsConst() {
+					if j, ok := in.tryMerge(fr, b, cond); ok {
+						next = j
+						phisDone = true
+						break
+					}
 					if fr.symIfs == nil {
 						fr.symIfs = map[ssa.Instruction]int{}
 					}
